@@ -248,6 +248,21 @@ def r3_detail_stripping(ctx):
             if isinstance(a0, ast.Name):
                 role = _value_role(ctx, f, rd, n, a0)
                 stripped_roles.add(role)
+    # the stripped texts are compared and that verdict replaces the first one
+    cmp_ok = False
+    for n in g.nodes:
+        if n.dup or n.kind != 'stmt' or not isinstance(n.ast, ast.Assign) or not isinstance(n.ast.value, ast.Call):
+            continue
+        c = n.ast.value
+        if _resolves_to(ctx, f, c, 'xdoctest.checker.check_output') and len(c.args) >= 2 and all(isinstance(a, ast.Name) for a in c.args[:2]):
+            srcs = [[d.value for d in rd.at(n, a.id)] for a in c.args[:2]]
+            if all(vs and all(isinstance(v, ast.Call) and _resolves_to(ctx, f, v, SQ) for v in vs) for vs in srcs):
+                flagvar = n.ast.targets[0].id if isinstance(n.ast.targets[0], ast.Name) else None
+                first = [d for d in rd.defs_of(flagvar)] if flagvar else []
+                cmp_ok = len(first) >= 2
+    rep.ob('C03.R3', ctx.loc(f, f.node), 'stripped got is compared with stripped want', cmp_ok,
+           'the second comparison overwrites the verdict of the first' if cmp_ok else
+           'the stripped texts are never compared (or the result is dropped): IGNORE_EXCEPTION_DETAIL has no effect, a traceback want that differs only in the message still fails', anchor=CE)
     ok = {'got', 'want'} <= stripped_roles
     rep.ob('C03.R3', ctx.loc(f, f.node), 'both sides stripped', ok,
            'stripping is applied to the raised message and to the wanted message' if ok else
@@ -391,6 +406,15 @@ def r6_strip_details_bounds(ctx):
     order = sorted([by['\n'][0], by[':'][0], by['.'][0]], key=lambda x: x.lineno)
     ok = order == [by['\n'][0], by[':'][0], by['.'][0]] and dom.dominates(by['\n'][0], by[':'][0]) and dom.dominates(by[':'][0], by['.'][0])
     rep.ob('C03.R6', ctx.loc(f, f.node), 'searches in the order newline, colon, dot', ok, 'each search runs after the window was narrowed by the previous one' if ok else 'the searches are not ordered newline -> colon -> dot', anchor=q)
+    # each search narrows the window
+    for needle, what, tgt in (('\n', 'first newline', end), (':', 'first colon', end), ('.', 'last dot', start)):
+        n_, c_, var_ = by[needle]
+        used = [d for d in rd.defs_of(tgt) if isinstance(d.value, ast.AST) and any(is_name(x, var_) for x in ast.walk(d.value)) and
+                any(x is n_ for x in [dd.node for dd in rd.at(d.node, var_)])]
+        rep.ob('C03.R6', ctx.loc(f, c_), 'the %s narrows `%s`' % (what, tgt), bool(used),
+               'the position found becomes the new bound' if used else
+               'the position of the %s is computed but never becomes a bound of the window: the class name keeps %s' %
+               (what, {'\n': 'every line of the message', ':': 'the message after the colon', '.': 'its dotted module path'}[needle]), anchor=q)
     # narrowing stores are guarded by the search having succeeded
     for d in rd.defs_of(end) + rd.defs_of(start):
         if d.node is g.entry or d.kind not in ('assign',) or not isinstance(d.value, ast.AST):
@@ -541,6 +565,9 @@ from ..selftest import fire, silent      # noqa: E402
 DE = 'xdoctest/doctest_example.py'
 CK = 'xdoctest/checker.py'
 VARIANTS = [
+    fire('stripped-texts-never-compared', 'C03.R3', (CK, "        flag = check_output(exc_got1, exc_want1, runstate)\n", "        pass\n")),
+    fire('colon-position-never-narrows-the-window', 'C03.R6', (CK, "    i = msg.find(':', 0, end)\n    if i >= 0:\n        end = i\n", "    i = msg.find(':', 0, end)\n    if i >= 0:\n        pass\n")),
+    fire('dot-position-never-moves-the-start', 'C03.R6', (CK, "        start = i + 1\n", "        pass\n")),
     fire('class-name-cut-at-the-first-dot', 'C03.R6', (CK, "    i = msg.rfind('.', 0, end)\n", "    i = msg.find('.', 0, end)\n")),
     fire('expected-exception-ignored-under-ignore-want', 'C03.R1b', (DE, "                    except Exception:\n                        if part.want:\n", "                    except Exception:\n                        if part.want and not runstate['IGNORE_WANT']:\n")),
     fire('first-line-of-exception-display-compared', 'C03.R1b', (DE, "exc_got = traceback.format_exception_only(*exception[:2])[-1]", "exc_got = traceback.format_exception_only(*exception[:2])[0]")),
